@@ -44,8 +44,9 @@ def main(argv=None) -> int:
     ap.add_argument("--selfcheck", action="store_true")
     ap.add_argument("--all", action="store_true")
     a = ap.parse_args(argv)
-    if os.environ.get("VERIF_TIER") in ("quick", "thorough"):
-        a.tier = os.environ["VERIF_TIER"]
+    # an explicit --tier on the command line wins; VERIF_TIER only supplies the default (see add_argument above)
+    if a.tier not in ("quick", "thorough"):
+        a.tier = "quick"
     seed = int(os.environ.get("VERIF_SEED", "0") or 0)
     if a.selfcheck:
         from .selfcheck import selfcheck
